@@ -223,6 +223,60 @@ pub fn split_ops<'a>(toks: &[&'a str]) -> Vec<Vec<&'a str>> {
     ops
 }
 
+// a byte source that hands out its data in short, irregular pieces (std::io::Read and futures AsyncRead)
+pub struct ShortRead<'a> {
+    pub data: &'a [u8],
+    pub pos: usize,
+    pub k: usize,
+}
+impl ShortRead<'_> {
+    fn next_len(&mut self, want: usize) -> usize {
+        const PATS: [[usize; 6]; 3] = [[1, 7, 4096, 3, 64, 13], [4096, 4096, 1, 4096, 2, 4096], [5, 5, 5, 5, 5, 1000]];
+        self.k += 3;
+        let cap = PATS[self.k % 3][(self.k / 3) % 6];
+        want.min(cap).min(self.data.len() - self.pos)
+    }
+}
+impl std::io::Read for ShortRead<'_> {
+    fn read(&mut self, buf: &mut [u8]) -> std::io::Result<usize> {
+        let n = self.next_len(buf.len());
+        buf[..n].copy_from_slice(&self.data[self.pos..self.pos + n]);
+        self.pos += n;
+        Ok(n)
+    }
+}
+impl futures::io::AsyncRead for ShortRead<'_> {
+    fn poll_read(mut self: std::pin::Pin<&mut Self>, _cx: &mut std::task::Context<'_>, buf: &mut [u8]) -> std::task::Poll<std::io::Result<usize>> {
+        let n = self.next_len(buf.len());
+        let p = self.pos;
+        buf[..n].copy_from_slice(&self.data[p..p + n]);
+        self.pos += n;
+        std::task::Poll::Ready(Ok(n))
+    }
+}
+fn minimal_matches(ms: &MDBMinimalShard, files: &[MDBFileInfo], cass: &[MDBCASInfo]) -> bool {
+    if ms.num_files() != files.len() || ms.num_cas() != cass.len() {
+        return false;
+    }
+    for (i, f) in files.iter().enumerate() {
+        let (mut v, mut w) = (vec![], vec![]);
+        ms.file(i).serialize(&mut v).unwrap();
+        f.serialize(&mut w).unwrap();
+        if v != w {
+            return false;
+        }
+    }
+    for (i, c) in cass.iter().enumerate() {
+        let (mut v, mut w) = (vec![], vec![]);
+        ms.cas(i).serialize(&mut v).unwrap();
+        c.serialize(&mut w).unwrap();
+        if v != w {
+            return false;
+        }
+    }
+    true
+}
+
 // C09: build, serialize, scan through every reader, look up keys.
 pub fn run_c09(toks: &[&str]) -> Lines {
     let ops = split_ops(toks);
@@ -292,6 +346,69 @@ pub fn run_c09(toks: &[&str]) -> Lines {
                 }
             },
             Err(e) => why.push(format!("minimal-reader-error:{:?}", e)),
+        }
+        // the same readers over sources that deliver the bytes in short, irregular pieces (a socket, a pipe): sync and async
+        for pat in [0usize, 1, 2] {
+            let mut sr = ShortRead { data: &bytes, pos: 0, k: pat };
+            match MDBMinimalShard::from_reader(&mut sr, true, true) {
+                Ok(ms) => {
+                    if !minimal_matches(&ms, &b.files, &b.cass) {
+                        why.push(format!("minimal-reader-short-reads-pattern{}", pat));
+                    }
+                },
+                Err(e) => why.push(format!("minimal-reader-short-reads-error:{:?}", e)),
+            }
+            let mut ar = ShortRead { data: &bytes, pos: 0, k: pat };
+            match futures::executor::block_on(MDBMinimalShard::from_reader_async(&mut ar, true, true)) {
+                Ok(ms) => {
+                    if !minimal_matches(&ms, &b.files, &b.cass) {
+                        why.push(format!("minimal-reader-async-short-reads-pattern{}", pat));
+                    }
+                },
+                Err(e) => why.push(format!("minimal-reader-async-short-reads-error:{:?}", e)),
+            }
+            let mut ar = ShortRead { data: &bytes, pos: 0, k: pat };
+            let (mut fs, mut cs): (Vec<Vec<u8>>, Vec<Vec<u8>>) = (vec![], vec![]);
+            let res = futures::executor::block_on(mdb_shard::streaming_shard::process_shard_stream_async(
+                &mut ar,
+                Some(|f: mdb_shard::file_structs::MDBFileInfoView| {
+                    let mut v = vec![];
+                    f.serialize(&mut v)?;
+                    fs.push(v);
+                    Ok(())
+                }),
+                Some(|c: mdb_shard::cas_structs::MDBCASInfoView| {
+                    let mut v = vec![];
+                    c.serialize(&mut v)?;
+                    cs.push(v);
+                    Ok(())
+                }),
+            ));
+            let want_f: Vec<Vec<u8>> = b.files.iter().map(|f| { let mut w = vec![]; f.serialize(&mut w).unwrap(); w }).collect();
+            let want_c: Vec<Vec<u8>> = b.cass.iter().map(|c| { let mut w = vec![]; c.serialize(&mut w).unwrap(); w }).collect();
+            if res.is_err() || fs != want_f || cs != want_c {
+                why.push(format!("streaming-walk-async-short-reads-pattern{}", pat));
+            }
+            let mut sr = ShortRead { data: &bytes, pos: 0, k: pat };
+            let (mut fs, mut cs): (Vec<Vec<u8>>, Vec<Vec<u8>>) = (vec![], vec![]);
+            let res = mdb_shard::streaming_shard::process_shard_stream(
+                &mut sr,
+                Some(|f: mdb_shard::file_structs::MDBFileInfoView| {
+                    let mut v = vec![];
+                    f.serialize(&mut v)?;
+                    fs.push(v);
+                    Ok(())
+                }),
+                Some(|c: mdb_shard::cas_structs::MDBCASInfoView| {
+                    let mut v = vec![];
+                    c.serialize(&mut v)?;
+                    cs.push(v);
+                    Ok(())
+                }),
+            );
+            if res.is_err() || fs != want_f || cs != want_c {
+                why.push(format!("streaming-walk-short-reads-pattern{}", pat));
+            }
         }
         let mut r3 = Cursor::new(&bytes);
         let mut nf = 0usize;
